@@ -57,7 +57,7 @@ def search(chk, r, n, max_pto):
         za = (float(r.uniform(0, 3)), float(r.uniform(3, 7)))
         target = r.choice(TARGETS[1:] + [dict(Z=za[0], A=za[1]), dict(A=za[1], Z=za[0]), dict(A=1.0, Z=0.0), dict(A=1.0, Z=float(r.choice([0.3, 0.5]))), dict(A=2.0, Z=0.0)])
         # explicit compositions at the edges of the documented domain (0 <= Z <= A), deterministically
-        edge = [dict(A=1.0, Z=0.0), dict(Z=0, A=2), dict(A=1.0, Z=0.5), dict(Z=2.0, A=2.0)]
+        edge = [dict(A=1.0, Z=0.0), dict(Z=0, A=2), dict(A=1.0, Z=0.5), dict(Z=2.0, A=2.0), dict(Z=26, A=55.845), dict(Z=1, A=2.5)]
         if i < len(edge):
             target = edge[i]
         name = f"{kind}_{fl}"
@@ -148,6 +148,58 @@ def search_target_mass_paths(chk, r, n):
         chk.search_case("target_vs_rotated_proton_with_target_mass", worst <= 1e-11 * max(scale, 1e-300), what=f"{name} {process} TMC={th['TMC']} target={target}: target operator != isospin rotation of the proton operator (diff {worst:.3g}, scale {scale:.3g})", data=sample, sample=sample if i == 0 else None, nontrivial=scale > 0)
 
 
+def search_kernels_target_vs_proton(chk, r, n):
+    """on the real Combiner, every scheme and order (no convolution needed): the kernels a run on a
+    target hands to the convolution are, one by one, the kernels of the proton run with the (u, d) and
+    (ubar, dbar) weights rotated by Z/A - also the asymptotic and 'missing' ones that only exist beyond NLO"""
+    import yadism
+    from yadism.coefficient_functions import Combiner
+    from yadism.input import compatibility
+
+    from .. import corr_weights
+
+    for t, o in corr_weights.combiner_configs(r, n):
+        target = o["TargetDIS"]
+        if target == "proton":
+            target = r.choice(["neutron", "iron", dict(Z=26, A=55.845), dict(Z=0.4, A=1.0)])
+        if isinstance(target, dict):
+            Z, A = float(target["Z"]), float(target["A"])
+        else:
+            tmp = dict(TargetDIS=target)
+            compatibility.update_target(tmp)
+            Z, A = float(tmp["TargetDIS"]["Z"]), float(tmp["TargetDIS"]["A"])
+        try:
+            rp = yadism.Runner(t, dict(o, TargetDIS="proton"))
+            rt = yadism.Runner(t, dict(o, TargetDIS=target))
+        except Exception:
+            continue
+        for name in rp.observables:
+            ep, et = rp.observables[name].elements[:1], rt.observables[name].elements[:1]
+            if not ep or not et:
+                continue
+            try:
+                kp, kt = Combiner(ep[0]).collect_elems(), Combiner(et[0]).collect_elems()
+            except Exception:
+                continue
+            sample = dict(obs=name, FNS=t["FNS"], NfFF=t["NfFF"], pto=t["PTODIS"], pto_evol=t["PTO"], process=o["prDIS"], target=target, n_kernels=len(kp))
+            problem = None
+            if [type(k.coeff).__name__ for k in kp] != [type(k.coeff).__name__ for k in kt]:
+                problem = "the two runs build different lists of channels"
+            else:
+                for a, b in zip(kp, kt):
+                    rot = dict(a.partons)
+                    for u_, d_ in ((2, 1), (-2, -1)):
+                        wu, wd = a.partons.get(u_, 0.0), a.partons.get(d_, 0.0)
+                        rot[u_], rot[d_] = (Z * wu + (A - Z) * wd) / A, (Z * wd + (A - Z) * wu) / A
+                    worst = max(abs(rot.get(p_, 0.0) - b.partons.get(p_, 0.0)) for p_ in set(rot) | set(b.partons))
+                    sc = max([abs(v_) for v_ in rot.values()] + [1e-300])
+                    if worst > 1e-12 * sc:
+                        problem = f"{type(a.coeff).__module__.split('.')[-2]}.{type(a.coeff).__name__}: weights on the target are not the rotated proton weights (max difference {worst:.3g}, scale {sc:.3g})"
+                        break
+            sample["problem"] = problem
+            chk.search_case("kernels_on_target_are_rotated_proton_kernels", problem is None, what=f"{name} {o['prDIS']} {t['FNS']} NfFF={t['NfFF']} pto={t['PTODIS']} target={target}: {problem}", data=sample, sample=sample if problem else None, nontrivial=len(kp) > 0)
+
+
 def run(tier):
     chk = common.Check("C12", tier)
     thorough = tier == "thorough"
@@ -157,5 +209,6 @@ def run(tier):
     corr_weights.run_isospin(chk, 150 if thorough else 15, r)
     search(chk, r, 150 if thorough else 16, 2 if thorough else 1)
     search_target_mass_paths(chk, r, 24 if thorough else 6)
+    search_kernels_target_vs_proton(chk, r, 200 if thorough else 30)
     chk.assumptions += ["operator entries are linear in the parton weights (`conv` is a parameter)", "marble's TargetDISid string formatting is compared literally"]
     return chk
